@@ -235,8 +235,8 @@ pub fn cases(refs: &Refs, quick: bool, warm: bool) -> Vec<Case> {
 			texts.insert(format!("s://h:{p}/"));
 			texts.insert(format!("//[::1]:{p}#f"));
 		}
-		// literals around 64 / 128 / 256 bytes, with a multi-byte character straddling every offset
-		for l in (58usize..=70).chain(124..=130).chain(252..=258) {
+		// literals around 64 / 128 / 256 / 1024 / 2048 bytes, with a multi-byte character straddling every offset
+		for l in (58usize..=70).chain(124..=130).chain(252..=258).chain(1018..=1026).chain(2042..=2050) {
 			texts.insert(format!("s:{}", "a".repeat(l)));
 			texts.insert(format!("s:{}é{}", "a".repeat(l), "b"));
 			texts.insert(format!("s:{}{}", "a".repeat(l), '\u{10000}'));
